@@ -230,6 +230,7 @@ PROPS = {
     ),
     'C20': dict(
         covered=[
+            'inside a flow collection a tuple struct is a flow sequence: its first field opens the bracket, later fields follow a comma, the end closes it, an empty one is `[]` (whole body of TupleSer::end and the opening statement of serialize_field as fragments; F34)',
             'inside a flow collection a tuple variant is opened as a flow mapping holding a flow sequence (`{Name: [`; prologue of serialize_tuple_variant; F33 - the newtype and struct variant counterparts are generic over the payload / not extracted and are covered by the demonstration test only)',
             'serializer set-up (unit seropts): SerializerOptions::consistent accepts options exactly when indent_step >= 1; YamlSerializer::new / with_indent / with_options copy every option into the field the emitter reads and set nothing else; a new serializer starts at a line start, outside every flow collection, with nothing pending',
             'write_end_of_scalar: a staged inline comment is written only outside flow context, as ` # ` + text + newline, and is consumed',
